@@ -238,6 +238,11 @@ def run(ctx, budget):
     run_cases(ctx, cases)
     for _ in range(3 * budget):
         run_cases(ctx, gen_cases(ctx.rng, 1000, big=(ctx.tier == "thorough")))
+    scaled = []
+    for _ in range(200 * budget):
+        vars_, cons = K.gen_scaled(ctx.rng)
+        scaled.append({"vars": vars_, "cons": cons, "hints": None, "limit": 1, "solver": "sat", "family": "scaled"})
+    run_cases(ctx, scaled)
     summarise(ctx)
 
 
